@@ -18,6 +18,7 @@ import (
 	"bytes"
 	"crypto/tls"
 	"crypto/x509"
+	"encoding/binary"
 	"encoding/json"
 	"fmt"
 	"io"
@@ -234,10 +235,20 @@ func (ep *ExportingProcess) SendSet(set entities.Set) (int, error) {
 	if setType == entities.Undefined {
 		return 0, fmt.Errorf("set type is not properly defined")
 	}
+	var setID uint16
+	if setType == entities.Data {
+		var err error
+		if setID, err = ep.dataSetSanityCheck(set); err != nil {
+			return 0, fmt.Errorf("error when doing sanity check:%v", err)
+		}
+	}
 	for _, record := range set.GetRecords() {
 		if setType == entities.Template {
 			ep.updateTemplate(record.GetTemplateID(), record.GetOrderedElementList(), record.GetMinDataRecordLen())
 		} else if setType == entities.Data {
+			if record.GetTemplateID() != setID {
+				return 0, fmt.Errorf("error when doing sanity check:process: templateID %d of the data record does not match the set ID %d", record.GetTemplateID(), setID)
+			}
 			err := ep.dataRecSanityCheck(record)
 			if err != nil {
 				return 0, fmt.Errorf("error when doing sanity check:%v", err)
@@ -442,6 +453,24 @@ func (ep *ExportingProcess) sendRefreshedTemplates() error {
 		}
 	}
 	return nil
+}
+
+// dataSetSanityCheck returns the ID in the header of a data set, which is the ID the
+// collector will use to decode the set; a template with that ID must have been sent.
+func (ep *ExportingProcess) dataSetSanityCheck(set entities.Set) (uint16, error) {
+	header := set.GetHeaderBuffer()
+	if len(header) < entities.SetHeaderLen {
+		return 0, fmt.Errorf("process: data set has no set header")
+	}
+	setID := binary.BigEndian.Uint16(header[0:2])
+
+	ep.templateMutex.Lock()
+	defer ep.templateMutex.Unlock()
+
+	if _, exist := ep.templatesMap[setID]; !exist {
+		return 0, fmt.Errorf("process: templateID %d does not exist in exporting process", setID)
+	}
+	return setID, nil
 }
 
 func (ep *ExportingProcess) dataRecSanityCheck(rec entities.Record) error {
